@@ -326,6 +326,48 @@ def table_specs(draw, tier="quick", values="int", ids="simple", md=True,
     return spec
 
 
+@st.composite
+def big_specs(draw, md="simple", values="count"):
+    """A table with one long axis (past 256 entries: block-wise and
+    'large axis' code paths), built procedurally from a few drawn numbers so
+    that the case stays small to generate.  Same keys as table_specs()."""
+    long_ = draw(st.sampled_from([257, 300, 513]))
+    short = draw(st.integers(1, 3))
+    axis = draw(st.sampled_from(["observation", "observation", "sample"]))
+    n, m = (long_, short) if axis == "observation" else (short, long_)
+    a, b, c = draw(st.integers(1, 6)), draw(st.integers(1, 6)), \
+        draw(st.integers(0, 9))
+    dens = draw(st.sampled_from([2, 3, 5]))
+
+    def val(i, j):
+        if (i * a + j * b + c) % dens == 0:
+            return 0.0
+        v = float((i * 7 + j * 3 + c) % 97 + 1)
+        if values == "dyadic":
+            v = v / 8 * (-1 if (i + j) % 4 == 0 else 1)
+        return v
+    rows = [[val(i, j) for j in range(m)] for i in range(n)]
+    pre = draw(st.sampled_from(["o", "OTU_", "x "]))
+    obs = ["%s%d" % (pre, i) for i in range(n)]
+    samp = ["s%d" % j for j in range(m)]
+    if draw(st.booleans()):
+        # not in creation order
+        k = draw(st.integers(2, 11))
+        obs = obs[::k] + [x for q, x in enumerate(obs) if q % k]
+        samp = samp[::-1]
+    spec = {"obs": obs, "samp": samp, "rows": rows, "type": None,
+            "form": draw(st.sampled_from(["dense", "csr", "csc",
+                                          "csr_unsorted"])),
+            "history": [], "obs_md": None, "samp_md": None}
+    if md == "simple" and draw(st.booleans()):
+        spec["obs_md"] = [{"k": "ov%d" % i, "taxonomy": ["k__%d" % (i % 7),
+                                                         "p__%d" % i]}
+                          for i in range(n)]
+        spec["samp_md"] = [{"k": "sv%d" % j} for j in range(m)] \
+            if draw(st.booleans()) else None
+    return spec
+
+
 # ---------------------------------------------------------------------------
 # HDF5 (BIOM 2.1) metadata domain: same categories on every ID, each category
 # homogeneous (all text / all numeric-or-bool / lists of non-empty text under
